@@ -192,10 +192,10 @@ PROPS = {
             {"name": "spsa", "tags": "verif,spsa", "timeout_q": 1800, "timeout_t": 10800, "tiers": ["thorough"]},
             {"name": "race", "flags": ["-race"], "timeout_q": 1800, "timeout_t": 10800, "tiers": ["thorough"]},
         ],
-        "rule": "cases = real search.Search.Go calls: roots of 11 classes (played-out with history, fresh, in check, <=2 replies, promotion available, clock 96..104, 2nd and 3rd occurrence built by MakeMove, mate, stalemate, dense) x requests "
+        "rule": "cases = real search.Search.Go calls: roots of 13 classes (played-out with history, fresh, in check, <=2 replies, promotion available, clock 96..104, 2nd and 3rd occurrence built by MakeMove, mate, stalemate, dense, castling-ready, castling right present but castling blocked - the last two always with a castling encoding planted in the table for the root hash) x requests "
                 "(depth 1..10, soft nodes, hard nodes, pre-closed stop channel, stop channel closed from another goroutine after 0..2000 us) x table sizes 32 B..16 MiB (tiny tables without Output), several requests per engine so tables are warm, half of the engines first search ANOTHER position (state left by a different root: PV buffer, tables, histories), a third of the roots run on a table with PLANTED entries for the root and successor hashes (pseudo-legal-but-illegal moves, arbitrary encodings, mate scores - what a 16-bit signature collision leaves behind), ponder searches that are hit / missed, wall-clock soft limits (legality only), "
                 "plus the ABORT SWEEP: WithNodes(k) for EVERY k in [0,K] (K=400 quick, 5000 thorough) on roots of every class - each k is one possible arrival time of stop / hard timeout - continued sparsely up to 40*K nodes (abort points inside aspiration re-searches and null-move subtrees of later iterations); plus the UCI path: `position ...; go <args>` with depth up to 1e6 and unparsable/negative/huge numbers. "
-                "Oracle per search: returned move is null or in the reference legal moves; null only if the root is final; a completed search on a final root returns null with score 0 / mated; deep board snapshot equal before and after Go; node budget not exceeded; the same engine then answers a fresh position legally; "
+                "Oracle per search: returned move is null or in the reference legal moves; null only if the root is final; a completed search on a final root returns null with score 0 / mated; deep board snapshot equal before and after Go; node budget not exceeded (also while pondering); the same engine then answers a fresh position legally; "
                 "the board consistency hook runs at every make/undo inside the search. thorough adds a verif,spsa build with random in-range parameter values and a -race build. distinct_nontrivial = distinct (root, table size) pairs.",
         "assumptions": [REF, "time-based limits are replaced by node budgets (the search polls them at the same points); wall-clock only chooses the moment of an async stop, never a verdict"],
         "technique": "runtime monitor: reference legality oracle + deep board snapshot before/after + in-situ consistency hook over real searches with a dense abort-point sweep (node budget as logical stop time), race detector in thorough",
@@ -222,7 +222,7 @@ PROPS = {
         ],
         "rule": "cases = searches of lock-step games (40 moves, tables carry over, no Clear between moves) on three independent engine instances: A plays with soft node limits and records the node count N_i each search ended with, "
                 "B replays every search with the hard budget N_i, C repeats A's requests. After EVERY move: (score, move, ponder, Counters.Nodes), the info lines with the time field stripped, and a digest of the complete persistent state "
-                "(every TT bucket, generation counter, all history tables - via the export hooks) must be equal between A and C and between A and B (B may add one trailing `info depth d nodes N` abort line), and B's node count must not exceed N_i. "
+                "(every TT bucket, generation counter, all history tables - via the export hooks) must be equal between A and C and between A and B (B may add one trailing `info depth d nodes N` abort line), and B's node count must not exceed N_i; separately, ponder searches with a hard budget (ponderhit after 0..3000 us) must never count or report more than the budget. "
                 "Half of the games start their searches WITHOUT the Counters option (as the UCI driver does; node counts are then read from the info lines), half answer each engine move with an unsearched pseudo-random reply so that roots are not already in the table, one move in five has a tiny soft limit (1..12 nodes). Games run concurrently on 16 goroutines with CPU burners and GOMAXPROCS varied during the run, on plain and -race builds; table sizes 32000 B / 1 MiB / 8 MiB; soft limits 1..20000 nodes. "
                 "evaluations = searches; distinct_nontrivial = distinct games.",
         "assumptions": ["soft TIME limits are represented by soft NODE limits (the search treats both identically between iterations); wall-clock is not an observable", "digest = FNV-style hash over all table bytes and history entries"],
